@@ -633,7 +633,7 @@ REQUIRED = [
 def run(ctx):
     import random
     O.selftest(random.Random(ctx.seed))
-    cfgs = ['prod', 'san', 'p32'] if ctx.quick else ['prod', 'san', 'p64', 'p32', 'x86base', 'p32-san']
+    cfgs = ['prod', 'san', 'p32', 'x86base'] if ctx.quick else ['prod', 'san', 'p64', 'p32', 'x86base', 'p32-san']
     specs = {c: (c if c != 'x86base' else 'prod', 'opdrv.cpp', ['--x86base'] if c == 'x86base' else []) for c in cfgs}
     exes = session.build_exes(specs)
     session.run_shards(ctx, worker, 16, exes, {'cfgs': cfgs})
